@@ -240,7 +240,9 @@ class Vector():
 			return Vector._hash_element(tuple(rep))
 
 		if isinstance(x, (list, tuple)):
-			h = len(x) + 1  # the length goes in first: (x,) and x, or (0, 1) and (1,), must not collide
+			# the length goes in first, on top of a constant of its own: (x,) and x, (0, 1) and (1,),
+			# () and 1 must not collide
+			h = (0xC2B2AE3D27D4EB4F + len(x)) % P
 			for elem in x:
 				h = (h * B + Vector._hash_element(elem)) % P
 			return h
